@@ -22,6 +22,11 @@ UNDECIDED = ["the actual gaps between Keep Alives under MissedTickBehavior::Skip
 TRUSTED = ["tokio::time::Interval", "tokio::select! expansion"]
 
 
+def re_fn(k):
+    import re
+    return [x for x in re.sub(r"::\{closure#\d+\}", "", k).split("::") if not x.startswith("{")][-1]
+
+
 def check(ctx):
     prog = ctx.prog
     # ---- C07/period
@@ -66,6 +71,30 @@ def check(ctx):
                 ivs.append(k)
     ctx.check(ivs == ["passage_protocol::connection::{impl#0}::new"], R, "C07/period/per-connection", "",
               reason="intervals are created in %s; expected only Connection::new" % ivs, detail="interval created only in Connection::new")
+
+    # the schedule of the interval is never perturbed: the only operation on it after creation is tick() in receive_packet
+    touch = []
+    for k, b in prog.lib_bodies.items():
+        if not k.startswith("passage_protocol::connection::"):
+            continue
+        a2 = None
+        for bb, t in b.calls():
+            if b.is_noise(t) or not t.args:
+                continue
+            a2 = a2 or ctx.an(b)
+            for i in range(len(t.args)):
+                e = a2.operand_expr(t.args[i], (bb, "term"))
+                while e[0] in ("ref", "deref", "mut", "cell"):
+                    e = e[3] if e[0] == "cell" else e[1]
+                if e[0] == "field" and e[2] == "keep_alive_interval" and self_field(e) == "keep_alive_interval":
+                    touch.append((re_fn(k), (cname(t) or dname(t)).split("::")[-1]))
+        for bb, i, s in ctx.an(b).mem_writes:
+            if s.place.fields()[-1:] == ["keep_alive_interval"] and not b.is_noise(s):
+                touch.append((re_fn(k), "assign"))
+    ctx.check(sorted(set(touch)) == [("receive_packet", "tick")], R, "C07/period/interval-untouched", "",
+              reason="the keep-alive interval is also manipulated by %s: resetting or re-arming it moves the next Keep Alive away from the fixed %s-second grid, so gaps can exceed the period"
+                     % (sorted(set(x for x in touch if x != ("receive_packet", "tick"))), "KEEP_ALIVE_INTERVAL"),
+              detail="interval only ever tick()ed, in receive_packet")
 
     # ---- C07/one-outstanding
     RO = "C07/one-outstanding"
